@@ -29,6 +29,24 @@ func genC10(t *rapid.T) c10Case {
 	c := c10Case{}
 	c.Shape = gen.DrawShape(t, gen.ShapeOpts{})
 	c.Recs = gen.DrawRecs(t, c.Shape, "r", 0, 8, gen.ValueOpts{})
+	// near-duplicates next to each other: a copy of a record that differs in ONE value only (a memo keyed by less than
+	// the whole record answers the second from the first)
+	if len(c.Recs) > 0 && len(c.Recs) < 8 && rapid.IntRange(0, 2).Draw(t, "nearDup") == 0 {
+		i := rapid.IntRange(0, len(c.Recs)-1).Draw(t, "nearDupOf")
+		src := c.Recs[i]
+		cp := gen.Rec{Vals: append([]string{}, src.Vals...), Dup: src.Dup}
+		for _, sub := range src.Subs {
+			cp.Subs = append(cp.Subs, append([]string{}, sub...))
+		}
+		col := len(cp.Vals) - 1
+		if col != c.Shape.IntCol && !(col == 0 && c.Shape.Filter) {
+			other := gen.DrawRec(t, c.Shape, "nearDupVal", 0, gen.ValueOpts{})
+			if len(other.Vals) == len(cp.Vals) && other.Vals[col] != cp.Vals[col] {
+				cp.Vals[col] = other.Vals[col]
+				c.Recs = append(c.Recs[:i+1], append([]gen.Rec{cp}, c.Recs[i+1:]...)...)
+			}
+		}
+	}
 	n := len(c.Recs)
 	c.Split = rapid.IntRange(0, n).Draw(t, "split")
 	c.Perm = rapid.Permutation(indices(n)).Draw(t, "perm")
